@@ -57,12 +57,18 @@ def contains_yield(node: ast.AST) -> bool:
     return False
 
 
-def may_raise(node: ast.AST) -> bool:
+def may_raise(node: ast.AST, no_raise_calls=()) -> bool:
     if isinstance(node, (ast.Raise, ast.Assert, ast.Import, ast.ImportFrom, ast.Delete)):
         return True
     for n in walk_shallow(node):
         if isinstance(n, ast.Lambda):
             continue
+        if isinstance(n, ast.Call) and no_raise_calls:
+            try:
+                if ast.unparse(n.func) in no_raise_calls and not n.args and not n.keywords:
+                    continue
+            except Exception:  # pragma: no cover
+                pass
         if isinstance(n, (ast.Call, ast.BinOp, ast.Await, ast.YieldFrom)):
             return True
         if isinstance(n, ast.Subscript) and isinstance(n.ctx, (ast.Load, ast.Del)):
@@ -109,7 +115,10 @@ def handler_admits(h: ast.ExceptHandler, exc: str) -> str:
 
 class CFG:
     def __init__(self, fn: ast.AST, test_eval: Callable[[ast.AST], Optional[bool]] = None,
-                 base_exceptions: bool = False, body: List[ast.stmt] = None):
+                 base_exceptions: bool = False, body: List[ast.stmt] = None, no_raise_calls=()):
+        """no_raise_calls: callee texts (e.g. "self._stopper.stop") whose argument-less calls were shown by the caller
+        (callee summary) to be unable to raise."""
+        self.no_raise_calls = set(no_raise_calls)
         self.fn = fn
         self.nodes: List[Node] = []
         self.succ: Dict[int, List[Tuple[int, str]]] = {}
@@ -197,7 +206,7 @@ class CFG:
         # stray break/continue outside loops: ignore
 
     def _raise_edges(self, nid: int, node: ast.AST, frames: list, force: bool = False):
-        if force or may_raise(node):
+        if force or may_raise(node, self.no_raise_calls):
             self._route([(nid, "exc")], ("exc", EXC), frames)
             if self.base_exceptions:
                 self._route([(nid, "exc")], ("exc", BASE), frames)
